@@ -6,7 +6,7 @@ fn arg_after(args: &[String], flag: &str) -> Option<String> {
 }
 
 fn quiet_panics() {
-    std::panic::set_hook(Box::new(|_| {}));
+    infra::install_panic_hook();
 }
 
 fn main() {
